@@ -348,11 +348,15 @@ def render(stmts, tmp, counter):
       if s['alias']:
         line += f' as {s["alias"]}'
       lines.append(line)
+    elif s['k'] == 'block':
+      lines.append(f'{".".join(s["sel"])}:')
     elif s['k'] == 'bind':
-      lines.append(f'{".".join(s["sel"])}.{s["arg"]} = {s["v"]}')
+      key = f'  {s["arg"]}' if s.get('_inblock') else f'{".".join(s["sel"])}.{s["arg"]}'
+      lines.append(f'{key} = {s["v"]}')
     elif s['k'] == 'bindref':
       sc = REFSCOPES[s.get('scope', 0)]
-      lines.append(f'{".".join(s["sel"])}.{s["arg"]} = @{sc + "/" if sc else ""}{".".join(s["ref"])}()')
+      key = f'  {s["arg"]}' if s.get('_inblock') else f'{".".join(s["sel"])}.{s["arg"]}'
+      lines.append(f'{key} = @{sc + "/" if sc else ""}{".".join(s["ref"])}()')
     elif s['k'] == 'unit':
       counter[0] += 1
       path = os.path.join(tmp, f'inc{counter[0]}.gin')
@@ -376,12 +380,24 @@ def observe(gin, objs):
       ids = {id(x): k for k, x in enumerate(objs)}
 
       def enc(v):
+        if isinstance(v, cfgmod._UnknownConfigurableReference):  # pylint: disable=protected-access
+          return -9000
         if isinstance(v, cfgmod.ConfigurableReference):   # a reference is observed as the object it denotes
           sc = '/'.join(v.scopes)
           return -(1000 + 1000 * (REFSCOPES.index(sc) if sc in REFSCOPES else 99) + ids.get(id(v.configurable.wrapped), 10 ** 6))
         return v
       rows.append([i, sorted([k, enc(v)] for k, v in b.items())])
   return sorted(rows)
+
+
+def skip_kw(case):
+  sk = case.get('skip') or {'k': 'no'}
+  if sk['k'] == 'all':
+    return {'skip_unknown': True}
+  if sk['k'] == 'names':
+    names = ['.'.join(n) for n in sk['v']]
+    return {'skip_unknown': {'list': list, 'tuple': tuple, 'set': set}[sk.get('_type', 'list')](names)}
+  return {}
 
 
 def run_impl(case):
@@ -398,7 +414,7 @@ def run_impl(case):
       text = render(u, tmp, counter)
       texts.append(text)
       try:
-        gin.parse_config(text)
+        gin.parse_config(text, **skip_kw(case))
       except Exception as e:  # pylint: disable=broad-except
         err_msg = str(e)[:300]
         for cls in (SyntaxError, ImportError, NameError, AttributeError, ValueError):
@@ -492,7 +508,8 @@ def _strip(stmts):
 
 def to_driver(case, impl):
   w, _ = get_world()
-  return {'dom': 'dyn', 'world': w, 'units': [_strip(u) for u in case['units']], 'imlist': impl.get('imlist', [])}
+  return {'dom': 'dyn', 'world': w, 'units': [_strip(u) for u in case['units']], 'imlist': impl.get('imlist', []),
+          'skip': {k: v for k, v in (case.get('skip') or {'k': 'no'}).items() if not k.startswith('_')}}
 
 
 def _canon_model(model):
@@ -522,10 +539,13 @@ def intended(case):
       if s.get('_expect'):
         err[0] = s['_expect']
         return
+      if s.get('_skipped'):
+        continue    # an unknown target that skip_unknown covers: deleted
       if s['k'] == 'bind':
         b.setdefault(s['_target'], {})[s['arg']] = s['v']
       elif s['k'] == 'bindref':
-        b.setdefault(s['_target'], {})[s['arg']] = -(1000 + 1000 * s.get('scope', 0) + s['_reftarget'])
+        b.setdefault(s['_target'], {})[s['arg']] = (-9000 if s.get('_placeholder') else
+                                                     -(1000 + 1000 * s.get('scope', 0) + s['_reftarget']))
       elif s['k'] == 'unit':
         walk(s['body'])
   for u in case['units']:
@@ -548,7 +568,12 @@ def oracle(case, impl):
     return why
   if impl.get('im_names_distinct') is False:
     return f'the import manager binds one name twice: {impl["im"]["imports"]}'
-  if err is None and impl.get('roundtrip') != impl['bindings']:
+  def representable(rows):   # a placeholder for an unknown reference has no literal form: the text omits it
+    if not isinstance(rows, list):
+      return rows
+    out = [[o, [kv for kv in kvs if kv[1] != -9000]] for o, kvs in rows]
+    return [r for r in out if r[1]]
+  if err is None and impl.get('roundtrip') != representable(impl['bindings']):
     return f'config_str() parsed back gives {impl.get("roundtrip")}, before {impl["bindings"]}:\n{impl.get("config_str")}'
   return None
 
